@@ -28,6 +28,11 @@ type evalResult struct {
 }
 
 // evalWithWatchdog runs Eval under recover() and a watchdog.
+// hangCount: evaluations the watchdog gave up on in this process; the verdict is already decided by the first one
+var hangCount int
+
+const maxHangs = 3
+
 func evalWithWatchdog(eng *logqlengine.Engine, query string, p logqlengine.EvalParams, limit time.Duration) evalResult {
 	ch := make(chan evalResult, 1)
 	go func() {
@@ -44,6 +49,8 @@ func evalWithWatchdog(eng *logqlengine.Engine, query string, p logqlengine.EvalP
 	case r := <-ch:
 		return r
 	case <-time.After(limit):
+		// the evaluation goroutine cannot be stopped and keeps a core busy: after a few hangs the run stops (main loop)
+		hangCount++
 		return evalResult{Hang: true}
 	}
 }
